@@ -43,6 +43,11 @@ RawK(m, a, b)       == IF m.decay THEN m.rawk[a][b] ELSE m.base
 K(m, a, b)          == Min2(RawK(m, a, b), m.base)               \* capped at the base constant
 Stiff(m, a, b)      == K(m, a, b) > m.minf
 
+\* What the processor documents for a value that is not given to it: the variable of the molecule's force field, else the default.
+DefaultRmd      == 2
+DefaultBondType == 6
+ResolveSpec(s, default) == IF s.given THEN s.val ELSE IF s.ffhas THEN s.ffval ELSE default
+
 Crit == <<"sel", "dom", "sep", "cut", "force">>
 Holds(m, cx, c, a, b) ==
   CASE c = 1 -> Selected(m, a, b)
@@ -89,23 +94,25 @@ ClassOf(m, cx, a, b) ==
      ELSE "multi"
 
 (* ------- TAB model: NB beads on a line; every combination of the listed choices is one input ------- *)
+\* TabRegions: set of region lists tried when the domain kind is "regions" (disjoint, reversed, sharing a hinge residue, nested)
 CONSTANTS NB, Spacing, Ups, Rmds, Minfs, Base, Partitions, ChainSplits, DomKinds, TabRegions
 
 VARIABLES m, out
 vars == <<m, out>>
 NotYet == {<<0, 0>>}
 
-MkInput(sel, part, ch, dk, rmd, up, minf, xl) ==
+MkInput(sel, part, ch, dk, regs, rmd, up, minf, xl) ==
   [atoms |-> [i \in 1..NB |-> [chain |-> ch[i], resid |-> part[i], resname |-> "ALA", hasold |-> FALSE, old |-> 0,
                                sel |-> sel[i], nan |-> FALSE, pos |-> <<(i - 1) * Spacing, 0, 0>>]],
    edges |-> SelectSeq([i \in 1..(NB - 1) |-> <<i, i + 1>>], LAMBDA e : ch[e[1]] = ch[e[2]])
              \o (IF xl THEN <<<<1, NB>>>> ELSE <<>>),
-   dom   |-> [kind |-> dk, regions |-> TabRegions],
+   dom   |-> [kind |-> dk, regions |-> regs],
    rmd |-> rmd, up |-> up, base |-> Base, minf |-> minf, decay |-> FALSE, rawk |-> <<>>]
 
-Inputs == {MkInput(sel, part, ch, dk, rmd, up, minf, xl) :
-             sel \in [1..NB -> BOOLEAN], part \in Partitions, ch \in ChainSplits, dk \in DomKinds,
-             rmd \in Rmds, up \in Ups, minf \in Minfs, xl \in BOOLEAN}
+RegsFor(dk) == IF dk = "regions" THEN TabRegions ELSE {<<>>}
+Inputs == UNION {{MkInput(sel, part, ch, dk, regs, rmd, up, minf, xl) :
+                    sel \in [1..NB -> BOOLEAN], part \in Partitions, ch \in ChainSplits, regs \in RegsFor(dk),
+                    rmd \in Rmds, up \in Ups, minf \in Minfs, xl \in BOOLEAN} : dk \in DomKinds}
 
 Init == m \in Inputs /\ out = NotYet
 Eval == /\ out = NotYet
